@@ -154,6 +154,15 @@ def _ops():
                 for _ in range(5):
                     s.sample()
         return f
+
+    def seeded_run():
+        s = _sampler(False, "rwm", "syst", random_state=7)
+        with _quiet(), warnings.catch_warnings():
+            warnings.simplefilter("ignore")
+            s._core._initialize_fresh()
+            for _ in range(4):
+                s.sample()
+        return s
     return {
         "GaussianMixture(n_components=2).fit": lambda: GaussianMixture(n_components=2).fit(X),
         "GaussianMixture(random_state=42).fit": lambda: GaussianMixture(n_components=2, random_state=42).fit(X),
@@ -165,6 +174,14 @@ def _ops():
         "5 sampler iterations (clustering on, tpcn)": it(True, "tpcn"),
         "5 sampler iterations (clustering off, rwm)": it(False, "rwm"),
         "5 sampler iterations (clustering on, rwm)": it(True, "rwm"),
+        # read-side operations of a SEEDED sampler that has already run (set up before the ambient seed is applied):
+        # the documented seeding point is the start of a fresh run, nothing after it may put the stream back
+        "seeded sampler: posterior(resample=True)": (seeded_run, lambda s: s.posterior(resample=True)),
+        "seeded sampler: posterior()": (seeded_run, lambda s: s.posterior()),
+        "seeded sampler: posterior(resample=True, trim)": (seeded_run, lambda s: s.posterior(resample=True, trim_importance_weights=True)),
+        "seeded sampler: evidence()": (seeded_run, lambda s: s.evidence()),
+        "seeded sampler: one more iteration": (seeded_run, lambda s: s.sample()),
+        "seeded sampler: posterior(resample=True) then iteration": (seeded_run, lambda s: (s.posterior(resample=True), s.sample())),
     }
 
 
@@ -176,10 +193,13 @@ def reset_violations(names=None):
             continue
         after = []
         for pre in (1, 2):
+            arg = ()
+            if isinstance(op, tuple):
+                arg = (op[0](),)
             np.random.seed(pre)
             with _quiet(), warnings.catch_warnings():
                 warnings.simplefilter("ignore")
-                op()
+                (op[1] if isinstance(op, tuple) else op)(*arg)
             after.append(np.random.rand(3).tolist())
         if after[0] == after[1]:
             bad.append({"what": f"after `{name}` the global stream is the same for ambient seeds 1 and 2 (first draws {after[0]})", "op": name})
